@@ -226,3 +226,71 @@ def bounded_pipeline_c06(seed, tier):
 
 def bounded_pipeline_c07(seed, tier):
     return _only('C07', seed, tier)
+
+
+def bounded_reencode(seed, tier):
+    """BOUNDED native stand-in for the document-level clause of C12: re-encoding a document with other
+    delimiters / line ends leaves the verdict and the acknowledgement body unchanged"""
+    import io
+    import logging
+    import random
+    import pyx12.x12n_document
+    import pyx12.params
+    from pyx12.test.x12testdata import datafiles
+    logging.disable(logging.CRITICAL)
+    rnd = random.Random(seed)
+    n = 0
+    failures = []
+
+    def run(text):
+        f = io.StringIO()
+        v = pyx12.x12n_document.x12n_document(param=pyx12.params.params(), src_file=io.StringIO(text), fd_997=f, fd_html=None, fd_xmldoc=None, xslt_files=None)
+        body = [s for s in f.getvalue().replace('\n', '').split('~') if s[:3] in ('AK1', 'AK2', 'AK3', 'AK4', 'AK5', 'AK9', 'IK3', 'IK4', 'IK5', 'TA1')]
+        return v, body
+
+    def encode(segs, st, et, sub, eol):
+        out = ''
+        for s in segs:
+            if s.startswith('ISA'):
+                t = s[:-1].replace('*', et) + sub
+            else:
+                t = s.replace('*', '\0').replace(':', '\1').replace('\0', et).replace('\1', sub)
+            out += t + st + eol
+        return out
+    seen_sigs = set()
+    docs = [(k, datafiles[k]['source']) for k in FIXTURES if k in datafiles and 'source' in datafiles[k]]
+    triples = [('~', '*', ':'), ('!', '|', '>'), ('\n', '*', ':'), ('~', '+', '&'), ('$', '*', '<')]
+    eols = ['', '\n', '\r\n']
+    for name, src in docs:
+        segs = _segments(src)
+        variants = [('identity', segs)] + [(lab, s2) for lab, s2 in mutations(segs, rnd, 2)
+                                            if lab.startswith(('over-long', 'extra component', 'non-numeric', 'delete NM1', 'random'))][:6 if tier == 'quick' else 40]
+        for lab, s2 in variants:
+            if any(any(c in s for c in '!|>+&$<') for s in s2):
+                continue
+            try:
+                base = run(encode(s2, '~', '*', ':', '\n'))
+            except Exception:
+                continue
+            for (st, et, sub) in triples[1:]:
+                for eol in eols:
+                    if st == '\n' and eol:
+                        continue
+                    n += 1
+                    try:
+                        got = run(encode(s2, st, et, sub, eol))
+                    except Exception as e:
+                        failures.append({'input': {'fixture': name, 'variant': lab, 'delimiters': [st, et, sub], 'eol': eol}, 'detail': 'C12: raised %s: %s' % (type(e).__name__, e)})
+                        continue
+                    if got != base:
+                        diff = [(a, b) for a, b in zip(base[1], got[1]) if a != b][:2]
+                        only_sep = got[0] == base[0] and len(got[1]) == len(base[1]) and \
+                            all(a.replace(':', '').replace(sub, '') == b.replace(':', '').replace(sub, '') for a, b in zip(base[1], got[1]))
+                        kind = 'an echoed composite value keeps the input component separator' if only_sep else 'results differ'
+                        sig = (kind, lab)
+                        if sig not in seen_sigs:
+                            seen_sigs.add(sig)
+                            failures.append({'input': {'fixture': name, 'variant': lab, 'delimiters': [st, et, sub], 'eol': eol},
+                                             'detail': 'C12: %s: verdict %r -> %r; acknowledgement body differs at %r' % (kind, base[0], got[0], diff)})
+    return {'function': 'x12n_document under re-encoding', 'evaluations': n,
+            'bound': '%d fixtures x (identity + faulty variants) x 4 delimiter triples x line ends' % len(docs), 'failures': failures[:8]}
